@@ -18,7 +18,7 @@ RULE = ('history = pool of generated expression ASTs (depth <= 5: traced functio
         '1024) predicting values, identity of cached results, invocation counts, cache_info() and LazyObjectMissingError; second '
         'scenario: LruCache state machine vs the same model for maxsize 1..5; non-trivial = depth >= 3 with a lazy argument, or a '
         'history that exceeds a bound and re-touches an old key; distinct = distinct canonical case JSON'
-        '; also: keyword order, same-object cached calls with array arguments, bytes arguments, floods of 255..300 held objects, arguments that raise StopIteration, single-underscore attribute names, a held object dropped and then dereferenced')
+        '; also: keyword order, same-object cached calls with array arguments, bytes arguments, floods of 255..300 held objects, arguments that raise StopIteration, single-underscore attribute names, a held object dropped and then dereferenced, calls on held objects and on traced constants (None / falsy), the same keywords in both orders both cached, factories that return a lazy object, held objects mutated through successive dereferences')
 ASSUMPTIONS = [
     'all callables live in vlib/targets.py (importable, so cloudpickle pickles them by reference) and count their invocations',
     'expression equality (cache key) is the library\'s: same callable, same arguments and keyword arguments, recursively - the '
